@@ -11,6 +11,12 @@ open Romea Romea.Proto Romea.LeastSquares
     ls.size n                setDataSize                               -> grew 0|1
     ls.row i v_0..v_{e-1} y  J(i,c) = v_c (c < est), Y(i) = y          -> ok
     ls.w i w                 W(i) = w                                  -> ok
+    ls.rowk i v.. y | ls.wk i w   the same caller writes, made through references to `J_` / `Y_` / `W_` that the
+                             caller obtained ONCE (right after construction) and kept, instead of a new
+                             `getJ()` / `getY()` / `getW()` call per line.  In `LeastSquares.cpp` the non-const
+                             accessors only return the member, so the two ways of writing are the same
+                             transition (`writeRow` / `setW`) of the model; the harness really drives them
+                             differently, so an accessor that starts to DO something shows up in stage B / C.
     ls.pre A(e*e) b(e)       setPreconditionner(A, b)                  -> ok
     ls.pre1 A(e*e)           setPreconditionner(A)                     -> ok
     ls.svd | ls.chol | ls.wls                                          -> x v_0..v_{e-1}
@@ -38,6 +44,20 @@ def fmtMat (tag : String) (m : Mat α) : String := unwords (tag :: (m.toList.map
 /-- the accesses of an estimate / peek stay inside the buffers -/
 def shapeOk (s : State α) : Bool := 1 ≤ s.est && s.dataSize ≤ s.Y.size
 
+/-- a caller write of one row (`ls.row`: through fresh accessor calls, `ls.rowk`: through kept references) -/
+def rowG (s : State α) (i : String) (rest : List String) : State α × String :=
+  match i.toNat?, parseAll? (Wire.parse? (α := α)) rest with
+  | some i, some vals =>
+    if s.est = 0 ∨ vals.length ≠ s.est + 1 ∨ i ≥ s.Y.size then (s, "bad-op") else
+    (writeRow s i (vals.take s.est).toArray (vals.getD s.est zero), "ok")
+  | _, _ => (s, "bad-op")
+
+/-- a caller write of one weight (`ls.w` / `ls.wk`) -/
+def wG (s : State α) (i w : String) : State α × String :=
+  match i.toNat?, Wire.parse? (α := α) w with
+  | some i, some w => if i ≥ s.W.size then (s, "bad-op") else (setW s i w, "ok")
+  | _, _ => (s, "bad-op")
+
 def stepG (s : State α) (toks : List String) : State α × String :=
   match toks with
   | ["ls.est", e] =>
@@ -51,16 +71,10 @@ def stepG (s : State α) (toks : List String) : State α × String :=
       let r := setDataSize s n (fun _ _ => Wire.nan) (fun _ => Wire.nan)
       (r.1, "grew " ++ fmtBool r.2)
     | none => (s, "bad-op")
-  | "ls.row" :: i :: rest =>
-    match i.toNat?, parseAll? (Wire.parse? (α := α)) rest with
-    | some i, some vals =>
-      if s.est = 0 ∨ vals.length ≠ s.est + 1 ∨ i ≥ s.Y.size then (s, "bad-op") else
-      (writeRow s i (vals.take s.est).toArray (vals.getD s.est zero), "ok")
-    | _, _ => (s, "bad-op")
-  | ["ls.w", i, w] =>
-    match i.toNat?, Wire.parse? (α := α) w with
-    | some i, some w => if i ≥ s.W.size then (s, "bad-op") else (setW s i w, "ok")
-    | _, _ => (s, "bad-op")
+  | "ls.row" :: i :: rest => rowG s i rest
+  | "ls.rowk" :: i :: rest => rowG s i rest
+  | ["ls.w", i, w] => wG s i w
+  | ["ls.wk", i, w] => wG s i w
   | "ls.pre" :: rest =>
     match parseAll? (Wire.parse? (α := α)) rest with
     | some vals =>
